@@ -130,8 +130,10 @@ def read(text, firmware=False):
                 if firmware:
                     # Marlin: skip the remaining number-ish characters; an 'e' that follows a
                     # number is where value_float() cut the value
+                    # (an upper-case 'E' right after a number is the next parameter - Marlin's parser records every upper-case
+                    # letter as one, which is what makes 'G1X5Y5E1.2' legal; a lower-case 'e' is not a letter to it)
                     k = t
-                    if k < m and rest[k] in "eE" and t > 0:
+                    if k < m and rest[k] == "e" and t > 0:
                         exp_trunc = True
                         k += 1
                         while k < m and rest[k] in NUMCH:
@@ -178,6 +180,8 @@ def selftest():
     assert c.get("E") == 1.0 and c.exp_truncated, c
     c = read("G0 F3000.0 X1.39e-16 Y5.0", True)
     assert c.get("X") == 1.39 and c.get("Y") == 5.0 and c.exp_truncated, c
+    c = read("G1X-12Y-12E0.127", True)
+    assert c.get("Y") == -12.0 and c.get("E") == 0.127 and not c.exp_truncated, c
     c = read("G28 X Y")
     assert c.has("X") and c.has("Y") and not c.has("Z") and not c.has_value("X"), c
     c = read("M117 Hello X1")
